@@ -25,7 +25,7 @@ fn k_fiin_entry_write() {
     core::mem::forget(e);
 }
 
-//@unit props=C10 label=S tier=thorough fn=fiin::FIINEntry(derive read) bound="96-byte record with the name region holding 'a.dat' + NULs, symbolic size, padding and digest region" stubs=fmt::format
+//@unit props=C10 label=S tier=parked fn=fiin::FIINEntry(derive read) bound="96-byte record with the name region holding 'a.dat' + NULs, symbolic size, padding and digest region" stubs=fmt::format
 //@desc size = LE word at 0, name = bytes at 8 up to the NUL padding, digest = the 24 bytes at 72; 96 bytes consumed
 #[kani::proof]
 #[kani::unwind(66)]
@@ -45,6 +45,27 @@ fn k_fiin_entry_read() {
             kani::assume(k < 24);
             assert!(e.sha1[k] == b[72 + k], "digest bytes at 72");
             assert!(c.position() == 96, "96 bytes consumed");
+            core::mem::forget(e);
+        }
+        Err(x) => { core::mem::forget(x); assert!(false, "entry parses"); }
+    }
+    kani::cover!(true, "reachable");
+}
+
+//@unit props=C10 label=S tier=parked fn=fiin::FIINEntry(derive read) bound="96-byte record whose name region holds the UTF-8 name 'é.d' (C3 A9 2E 64) + NULs; size and digest region symbolic" stubs=fmt::format
+//@desc the stored base name is returned as the same UTF-8 text (multi-byte characters are not re-encoded)
+#[kani::proof]
+#[kani::unwind(66)]
+#[kani::stub(alloc::fmt::format, stub_fmt)]
+fn k_fiin_entry_read_utf8_name() {
+    let mut b: [u8; 96] = kani::any();
+    let mut i = 8; while i < 72 { b[i] = 0; i += 1; }
+    b[8] = 0xC3; b[9] = 0xA9; b[10] = b'.'; b[11] = b'd';
+    let mut c = Cursor::new(&b[..]);
+    match FIINEntry::read_le(&mut c) {
+        Ok(e) => {
+            let nb = e.file_name.as_bytes();
+            assert!(nb.len() == 4 && nb[0] == 0xC3 && nb[1] == 0xA9 && nb[2] == b'.' && nb[3] == b'd', "name bytes unchanged (UTF-8)");
             core::mem::forget(e);
         }
         Err(x) => { core::mem::forget(x); assert!(false, "entry parses"); }
